@@ -72,7 +72,6 @@ impl<'c, KD: Kind, const N: usize> MapEng<'c, KD, N> {
             }
             let mut yielded: Vec<Y> = Vec::with_capacity(n + 4);
             let mut hints: Vec<(usize, (usize, Option<usize>))> = Vec::with_capacity(n + 4);
-            let mut fault_in_drain_drop = false;
             let m = &mut slot.c.m;
             let mut d = m.drain();
             let mut ended = false;
@@ -131,7 +130,6 @@ impl<'c, KD: Kind, const N: usize> MapEng<'c, KD, N> {
                     }
                     if let Err(p) = Self::lib(cx, move || drop(d)) {
                         fault |= unexpected(cx, liar, P10, &p);
-                        fault_in_drain_drop = p == Pk::Injected;
                     }
                 }
                 2 => {
@@ -151,7 +149,6 @@ impl<'c, KD: Kind, const N: usize> MapEng<'c, KD, N> {
                 0 => {
                     if let Err(p) = Self::lib(cx, move || drop(d)) {
                         fault |= unexpected(cx, liar, P10, &p);
-                        fault_in_drain_drop = p == Pk::Injected;
                     }
                 }
                 _ => {
@@ -202,15 +199,6 @@ impl<'c, KD: Kind, const N: usize> MapEng<'c, KD, N> {
                 if end == 1 && !fault {
                     cx.chk(P10, yielded.len() == n, "incomplete", || format!("drain run to the end yielded {} of {n} entries", yielded.len()));
                 }
-            }
-            if fault_in_drain_drop && !liar {
-                // an element's destructor panicked while the drain itself was being dropped: the
-                // drain *was* dropped, and "after drain() the container is empty ... no matter how
-                // much of the drain was consumed before it was dropped" (what was not destroyed
-                // may leak, it must not come back)
-                let post = Self::observe(&slot.c).unwrap_or_default();
-                let l = slot.c.m.len();
-                cx.chk(P10, post.is_empty() && l == 0, "drain-drop-panic", || format!("the drain was dropped (an element destructor panicked on the way), yet the map holds {} entries (len() = {l})", post.len()));
             }
             slot.model.clear();
             if end == 2 && !liar {
